@@ -344,7 +344,14 @@ def run_declarations(seed, res):
                     res.violation("C11/declared/decode", f"{width}-byte {'signed' if signed else 'unsigned'} value, raw {raw.hex()}: "
                                   f"library gives {got!r}, expected {want!r}", {**wit, "raw": raw.hex()})
     # overlap is refused, also for a partial overlap at either end
-    for (f1, w1, f2, w2) in ((0x10, 2, 0x11, 1), (0x10, 2, 0x0F, 2), (0x10, 1, 0x10, 1), (0x20, 4, 0x21, 2), (0x03, 1, 0x03, 3)):
+    shapes = [(0x10, 2, 0x11, 1), (0x10, 2, 0x0F, 2), (0x10, 1, 0x10, 1), (0x20, 4, 0x21, 2), (0x03, 1, 0x03, 3),
+              (0x11, 1, 0x10, 3), (0x12, 2, 0x10, 6), (0x30, 1, 0x2F, 3), (0x40, 2, 0x40, 3), (0x41, 2, 0x40, 3)]
+    for _ in range(60):          # every way two runs can intersect: inside, enclosing, either end, equal
+        f1, w1 = r.randrange(0x03, 0xF0), r.randint(1, 6)
+        f2 = r.randint(max(3, f1 - 6), f1 + w1 - 1)
+        w2 = r.randint(max(1, f1 - f2 + 1), 8)
+        shapes.append((f1, w1, f2, w2))
+    for (f1, w1, f2, w2) in shapes:
         bank = loc.MemoryBank(130, 0xFE)
         declare(bank, loc.NumericValue, f1, w1)
         res.evaluations += 1
@@ -353,6 +360,41 @@ def run_declarations(seed, res):
             declare(bank, loc.NumericValue, f2, w2)
             res.violation("C11/declared/overlap-accepted", f"a value at {f2:#x}..{f2 + w2 - 1:#x} was accepted although "
                           f"{f1:#x}..{f1 + w1 - 1:#x} is taken", {"first": [f1, w1], "second": [f2, w2]})
+        except loc.MemoryLocationOverlap:
+            pass
+        except Exception as e:
+            res.violation("C11/declared/overlap-wrong-exception", f"overlap raised {type(e).__name__}", {})
+    # the lock / latch byte at location 2 and the last-address byte at 0 are taken too; values given as explicit locations
+    # collide wherever one of their locations is taken, not only at their ends
+    ML = loc.MemoryLocation
+    for kw in ({"has_lock": True}, {"has_latch": True}, {}):
+        for first, width in ((0x01, 3), (0x02, 1), (0x00, 1), (0x00, 4), (0x02, 2)):
+            if not kw and first > 0:
+                continue
+            bank = loc.MemoryBank(132, 0xFE, **kw)
+            res.evaluations += 1
+            res.hit("declared_overlaps")
+            try:
+                declare(bank, loc.NumericValue, first, width)
+                res.violation("C11/declared/overlap-accepted", f"a value at {first:#x}..{first + width - 1:#x} was accepted in a bank "
+                              f"declared with {kw or 'no options'} (locations 0 and, with a lock or latch, 2 are taken)",
+                              {"first": [first, width], "bank": kw})
+            except loc.MemoryLocationOverlap:
+                pass
+            except Exception as e:
+                res.violation("C11/declared/overlap-wrong-exception", f"overlap raised {type(e).__name__}", {})
+    for taken, newc in (((0x20, 0x22), (0x1F, 0x20, 0x30)), ((0x20, 0x22), (0x1F, 0x22, 0x30)), ((0x21,), (0x20, 0x21, 0x22)),
+                        ((0x20, 0x21, 0x22), (0x1F, 0x21, 0x23)), ((0x30,), (0x10, 0x30, 0x50, 0x70))):
+        bank = loc.MemoryBank(133, 0xFE)
+        n[0] += 1
+        type(f"Declared{n[0]}", (loc.NumericValue,), {"bank": bank, "locations": tuple(ML(a, type_=T.ROM) for a in taken)})
+        res.evaluations += 1
+        res.hit("declared_overlaps")
+        try:
+            n[0] += 1
+            type(f"Declared{n[0]}", (loc.NumericValue,), {"bank": bank, "locations": tuple(ML(a, type_=T.ROM) for a in newc)})
+            res.violation("C11/declared/overlap-accepted", f"a value at locations {[hex(a) for a in newc]} was accepted although "
+                          f"{[hex(a) for a in taken]} are taken", {"taken": taken, "new": newc})
         except loc.MemoryLocationOverlap:
             pass
         except Exception as e:
